@@ -60,6 +60,7 @@ type RunResult struct {
 	Choices    []Choice        `json:"choices,omitempty"`
 	Decoded    json.RawMessage `json:"decoded,omitempty"`
 	StateHash  string          `json:"state_hash,omitempty"`
+	JobParams  string          `json:"-"`
 }
 
 type ReplayFile struct {
@@ -338,6 +339,7 @@ func (a *agg) add(r RunResult, params string) {
 		}
 		if len(a.viol[key]) < 3 {
 			rr := r
+			rr.JobParams = params
 			rr.Violations = []Violation{v}
 			a.viol[key] = append(a.viol[key], rr)
 		}
@@ -454,7 +456,7 @@ func check(prop, tier string) int {
 		}
 		v := Violation{Prop: "C04", Class: "process-crash", Signature: firstLine(c.log, "fatal error:", "panic:"), Detail: tail(c.log, 60)}
 		key := v.Prop + "|" + v.Class + "|" + v.Signature
-		a.viol[key] = append(a.viol[key], RunResult{World: c.job.World, Mode: c.job.Mode, Seed: c.seed, Violations: []Violation{v}})
+		a.viol[key] = append(a.viol[key], RunResult{World: c.job.World, Mode: c.job.Mode, Seed: c.seed, Violations: []Violation{v}, JobParams: c.job.Params})
 	}
 	keys := make([]string, 0, len(a.viol))
 	for k := range a.viol {
@@ -462,6 +464,46 @@ func check(prop, tier string) int {
 	}
 	sort.Strings(keys)
 	os.MkdirAll(filepath.Join(verifDir, "replays"), 0755)
+	// minimise + confirm all violations of this property concurrently
+	type minRes struct {
+		final     ReplayFile
+		confirmed bool
+		msg       string
+	}
+	minimised := map[string]minRes{}
+	{
+		var wg sync.WaitGroup
+		var mmu sync.Mutex
+		sem := make(chan struct{}, 8)
+		shrinkS := "30"
+		if tier == "thorough" {
+			shrinkS = "120"
+		}
+		os.Setenv("SIM_SHRINK_S", shrinkS)
+		for _, key := range keys {
+			rr := a.viol[key][0]
+			v := rr.Violations[0]
+			if v.Infra || v.Prop != prop {
+				continue
+			}
+			wg.Add(1)
+			go func(key string, rr RunResult, v Violation) {
+				defer wg.Done()
+				sem <- struct{}{}
+				defer func() { <-sem }()
+				rf := ReplayFile{Version: 1, Property: prop, World: rr.World, Mode: rr.Mode, Params: parseParams(rr.JobParams), Seed: rr.Seed, Violation: &v, Decoded: rr.Decoded}
+				for _, c := range rr.Choices {
+					rf.Choices = append(rf.Choices, c.V)
+					rf.Kinds = append(rf.Kinds, c.K)
+				}
+				final, confirmed, msg := minimiseAndConfirm(scratch, rf)
+				mmu.Lock()
+				minimised[key] = minRes{final, confirmed, msg}
+				mmu.Unlock()
+			}(key, rr, v)
+		}
+		wg.Wait()
+	}
 	for _, key := range keys {
 		rr := a.viol[key][0]
 		v := rr.Violations[0]
@@ -474,12 +516,13 @@ func check(prop, tier string) int {
 			continue
 		}
 		// minimise + confirm in fresh processes
-		rf := ReplayFile{Version: 1, Property: prop, World: rr.World, Mode: rr.Mode, Params: paramsOf(plan, rr.World, rr.Mode), Seed: rr.Seed, Violation: &v, Decoded: rr.Decoded}
+		rf := ReplayFile{Version: 1, Property: prop, World: rr.World, Mode: rr.Mode, Params: parseParams(rr.JobParams), Seed: rr.Seed, Violation: &v, Decoded: rr.Decoded}
 		for _, c := range rr.Choices {
 			rf.Choices = append(rf.Choices, c.V)
 			rf.Kinds = append(rf.Kinds, c.K)
 		}
-		final, confirmed, msg := minimiseAndConfirm(scratch, rf)
+		mr := minimised[key]
+		final, confirmed, msg := mr.final, mr.confirmed, mr.msg
 		if !confirmed {
 			if v.Class == "process-crash" {
 				// cannot be replayed in-process; report with the seed
@@ -533,6 +576,16 @@ func check(prop, tier string) int {
 	fmt.Printf("simctl: %s %s: %d runs, %d distinct non-trivial, %.0f runs/hour, %.1f simulated s, faults=%v, %d violation(s), %d known finding(s), %.1fs wall\n",
 		prop, tier, a.evals, len(a.distinct), float64(a.evals)/simS*3600, float64(a.simMS)/1000, a.faults, nViol, len(seen), time.Since(start).Seconds())
 	return exit
+}
+
+func parseParams(ps string) map[string]string {
+	m := map[string]string{}
+	for _, kv := range strings.Split(ps, ",") {
+		if i := strings.Index(kv, "="); i > 0 {
+			m[kv[:i]] = kv[i+1:]
+		}
+	}
+	return m
 }
 
 func paramsOf(p Plan, world, mode string) map[string]string {
